@@ -1077,6 +1077,10 @@ def halfway_import_probe():
 
                         def views(actor=None, own=None):
                             return [own if t == actor else (aobserve(m) if t == 0 else workers[t].call(("obs",))) for t in range(3)]
+                        if idx % 2 == 1:
+                            workers[1].call(("set", m, ("o", 0), True))      # the caller holds a selection of its own that the failure must not disturb
+                        else:
+                            workers[2].call(("set", m, ("o", 1), True))      # ... or the other worker does
                         v0 = views()
                         inputs = {"mode": 20, "manager": m, "call": kind, "local_threadsafe": local, "selector": name}
                         res1, own1 = workers[1].call((kind, m, ("h", idx), local))
@@ -1090,7 +1094,7 @@ def halfway_import_probe():
                         v2 = views(1, own2)
                         notes.append(f"{name}: first attempt {res1}, retry {res2}")
                         if res2 == "done":
-                            if v2[0] != v0[0] or (local and v2[2] != v0[2]) or (not local and v2[2][1] != v2[1][1]):
+                            if v2[0] != v0[0] or ((local or idx % 2 == 0) and v2[2] != v0[2]) or (not local and idx % 2 == 1 and v2[2][1] != v2[1][1]):
                                 fails.append(("C17_view", f"after the retry of {kind}({name!r}, local_threadsafe={local}) succeeded the threads observe {v2} "
                                               f"(before: {v0}): the main thread (own selection) must be unchanged, thread 2 (none) must follow iff not local", inputs))
                             if getattr(M.mgr.current_backend(), "backend_name", None) == name:
